@@ -127,6 +127,32 @@ def parseOp (j : Json) : Except String (Option Op) := do
   | _ => throw s!"unknown rst op {ks}"
 
 
+/-- an operation of the full writer API (`RstFull.lean`); `none` = serialise -/
+def parseFOp (j : Json) : Except String (Option FOp) := do
+  let k ← getStr j "op"
+  let ks := String.ofList k
+  if ks == "ser" then return none
+  let h ← getPath j
+  match ks with
+  | "text" => return some (.text h (← getStr j "t"))
+  | "field" => return some (.field h (← getStr j "n") (← getStr j "t"))
+  | "bl" => return some (.list h false (← getStrList j "items"))
+  | "el" => return some (.list h true (← getStrList j "items"))
+  | "doctest" => return some (.doctest h (← getStr j "line") (← getStr j "expected"))
+  | "table" =>
+    let rowsJ ← (← j.getObjVal? "rows").getArr?
+    let rows ← rowsJ.toList.mapM (fun r => do
+      let a ← r.getArr?
+      a.toList.mapM (fun x => do let s ← x.getStr?; pure s.toList))
+    return some (.table h rows (← getStrList j "heads"))
+  | "dir" => return some (.directive h (← getStr j "name") (← getStrList j "args"))
+  | "sect" => return some (.sect h (← getStr j "t"))
+  | "opt" => return some (.option h (← getStr j "n") (← getStr j "v"))
+  | "title" => return some (.setTitle h (← getStr j "t"))
+  | "clear" => return some (.clear h)
+  | _ => throw s!"unknown rst op {ks}"
+
+
 /-! decoding of the decorated syntax tree (see `harness/gen_modules.py` for the encoder) -/
 def natOf (j : Json) : Except String Nat := j.getNat?
 def strOf (j : Json) : Except String Str := do let s ← j.getStr?; pure s.toList
